@@ -7,7 +7,10 @@ env = dict(os.environ); env.pop("PYDCOP_VERIF", None)
 cmd = base["cmd"].replace("<file>", out)
 if len(sys.argv) > 1:
     cmd = cmd.replace("cd /repo", "cd " + sys.argv[1])
-p = subprocess.run(cmd, shell=True, capture_output=True, text=True, env=env)
+try:
+    p = subprocess.run("exec timeout -k 10 900 sh -c " + __import__("shlex").quote(cmd), shell=True, capture_output=True, text=True, env=env)
+except Exception as e:  # noqa
+    print("baseline run failed:", e); sys.exit(2)
 passed = set()
 for tc in ET.parse(out).getroot().iter("testcase"):
     if not list(tc):  # no failure/error/skipped child
@@ -17,5 +20,5 @@ missing = [t for t in base["stable_pass"] if t not in passed]
 print("stable_pass=%d passed_now=%d missing=%d" % (len(base["stable_pass"]), len(passed), len(missing)))
 for m in missing[:40]:
     print("  NOT PASSING:", m)
-print(p.stdout.strip().splitlines()[-1])
+print((p.stdout.strip().splitlines() or ['(no pytest summary: killed at exit hang?)'])[-1])
 sys.exit(1 if missing else 0)
